@@ -20,6 +20,18 @@ def load_job(job_path: Path, discard_id=True):
         return None, None
 
 
+def link_result_files(jobpath: Path, old_name: str, new_name: str):
+    """The result files of a job (`.done`, ...) are named after the task: when the
+    task itself has been renamed, make them visible under the new name"""
+    if old_name != new_name:
+        for suffix in ("done", "failed", "out", "err"):
+            newpath = jobpath / f"{new_name}.{suffix}"
+            if (jobpath / f"{old_name}.{suffix}").exists() and not (
+                newpath.exists() or newpath.is_symlink()
+            ):
+                newpath.symlink_to(f"{old_name}.{suffix}")
+
+
 def fix_deprecated(workpath: Path, fix: bool, cleanup: bool):
     jobspath = workpath / "jobs"
     logger.info("Looking for deprecated jobs in %s", jobspath)
@@ -73,6 +85,7 @@ def fix_deprecated(workpath: Path, fix: bool, cleanup: bool):
                             newjobpath.resolve(),
                             oldjobpath.resolve(),
                         )
+                        continue
                 else:
                     logger.info("Fixing %s/%s", name, old_identifier)
                     if cleanup:
@@ -89,3 +102,9 @@ def fix_deprecated(workpath: Path, fix: bool, cleanup: bool):
                         oldjobpath.rename(newjobpath)
                     else:
                         newjobpath.symlink_to(oldjobpath)
+
+                link_result_files(
+                    newjobpath,
+                    name.rsplit(".", 1)[-1],
+                    str(job.__xpmtype__.identifier).rsplit(".", 1)[-1],
+                )
